@@ -575,6 +575,32 @@ func (w *World) reachesEval(ci ssa.CallInstruction) (bool, string) {
 				return false, ""
 			}
 		}
+		// a function stored in a struct field: when every value ever stored into that field comes from outside the
+		// module (context.WithCancel's cancel function …) it cannot reach the evaluator
+		if ld, ok := c.Value.(*ssa.UnOp); ok {
+			if fa, ok := ld.X.(*ssa.FieldAddr); ok {
+				if vals, ok := w.fieldStores(fa); ok {
+					external := len(vals) > 0
+					for _, v := range vals {
+						ext := false
+						if ex, isEx := v.(*ssa.Extract); isEx {
+							if cc, isC := ex.Tuple.(*ssa.Call); isC && cc.Call.StaticCallee() != nil && !strings.HasPrefix(fnPkgPath(cc.Call.StaticCallee()), modPath) {
+								ext = true
+							}
+						}
+						if f, isF := v.(*ssa.Function); isF && !strings.HasPrefix(fnPkgPath(f), modPath) {
+							ext = true
+						}
+						if !ext {
+							external = false
+						}
+					}
+					if external {
+						return false, ""
+					}
+				}
+			}
+		}
 		// call of a function value: a callback of unknown provenance
 		ds := w.dynCallees(ci)
 		if len(ds) == 0 {
@@ -708,4 +734,37 @@ func escapes(v ssa.Value) bool {
 		return false
 	}
 	return visit(v, 0)
+}
+
+
+// fieldStores: every value stored, anywhere in the module, into the field that fa selects (by struct type and
+// field index); ok is false when the field's address escapes in a way that hides stores.
+func (w *World) fieldStores(fa *ssa.FieldAddr) ([]ssa.Value, bool) {
+	st := derefType(fa.X.Type())
+	var out []ssa.Value
+	for _, fn := range w.Funcs {
+		if isTestFunc(w, fn) {
+			continue
+		}
+		for _, b := range fn.Blocks {
+			for _, in := range b.Instrs {
+				f2, ok := in.(*ssa.FieldAddr)
+				if !ok || f2.Field != fa.Field || !types.Identical(derefType(f2.X.Type()), st) {
+					continue
+				}
+				for _, ref := range *f2.Referrers() {
+					switch u := ref.(type) {
+					case *ssa.Store:
+						if u.Addr == ssa.Value(f2) {
+							out = append(out, u.Val)
+						}
+					case *ssa.UnOp, *ssa.DebugRef:
+					default:
+						return nil, false
+					}
+				}
+			}
+		}
+	}
+	return out, true
 }
